@@ -104,6 +104,21 @@ TABLE = [
      'states) all runs are executed and at every access all (position, base) lookups and has_location answers are compared; plus 288 '
      'Molecule.allele conformance cases.',
      'phased=False, missing genotypes and multi-base sites are only covered by the all-modes-agree comparison; region_start/region_end, prefetch and uglyMode are not generated.'),
+    ('C06',
+     'bounded-exhaustive enumeration of coordinate-ordered fragment words with known truth x class x UMI distance x radius x fragment cap x pooling on the real MoleculeIterator + write_tags; ground-truth partition oracle, flag/tag invariants, all input duplicate-flag patterns, second tagging pass',
+     'All multisets of <=3 (thorough <=4) letters out of 15 (5 molecule keys: other strand, other cell, neighbouring site, far site; UMIs AAA/AAC/ACC/NAA; '
+     'variants other R2 end / soft clip / sequencing error), every order among equal coordinates, x {NlaIII, CHIC r=0, CHIC r=2, plain} x distance 0/1/2 x '
+     'cap None/1/2 x pooling 0/1 (full product). Oracle: soundness (one cell, one strand, site graph and UMI graph connected), exactness for '
+     'distance 0, pairwise-close UMIs never split, exactly one non-duplicate fragment per molecule for all 2^n input flag patterns, RC a ranking, '
+     'af == size, TF >= af, and a second pass over the tagged reads changes no flag or tag.',
+     'Truth is the simulator\'s (cell, site, strand, UMI); N in a UMI is treated as an uncalled base; invalid fragments belong to C05.'),
+    ('C14',
+     'bounded-exhaustive enumeration of reference windows x converted-position subsets x strand x TAPS strand convention x fragment shape on the real TAPS molecule classes with a real FastaFile; independent Bismark-style caller as oracle',
+     'Every window (length <=6 quick / <=8 thorough) of a de-Bruijn reference of order 3 over ACGTN plus edge and soft-masked contigs x every '
+     'subset of C/G positions converted x strand x taps_strand x fragment shape (single R1 safe/unsafe, overlapping, split, gapped, dove-tailed '
+     'pairs, indel pair) x NlaIII/CHIC TAPS molecules: calls, XM strings and MC/uC/sZ/sz/sX/sx/sH/sh totals are compared with an independent caller.',
+     'One fragment per molecule (voting belongs to C13); options inside methylation_consensus_kwargs are not explored; a lower-case call on a '
+     'non-conversion substitution is accepted.'),
 ]
 
 # id -> reason it is currently not claimed
